@@ -9,7 +9,7 @@ import os
 from mireval import Evaluator, Unsupported, fmt_term, mk_int
 from models import Models
 from facts import loc
-from common import VERIF
+from common import VERIF, at_log_levels
 
 MSG = "flipdot_core::message::Message"
 FRAME = "flipdot_core::frame::Frame"
@@ -267,6 +267,7 @@ def len_classes(rows):
     return sorted(c for c in consts | more if 0 <= c <= 255)
 
 
+@at_log_levels("flipdot_core")
 def run_c04(chk, prog):
     cx = Ctx(prog)
     spec = json.load(open(os.path.join(VERIF, "spec/wire_codes.json")))
@@ -400,6 +401,7 @@ def cell_key(r):
     return cell_desc(r).replace(" ", ";")
 
 
+@at_log_levels("flipdot_core")
 def run_c05(chk, prog):
     cx = Ctx(prog)
     chk.notes.append("A1: every row of the extracted Message->Frame table (32 rows: all variants x 13 states x 6 operations) is pushed through the extracted "
